@@ -1,6 +1,7 @@
 package main
 
 import (
+	"runtime"
 	"bytes"
 	"context"
 	"fmt"
@@ -75,6 +76,11 @@ func cmdDomains(args []string) int {
 					}
 					epoch++
 					epoch++
+					// every other round with a single processor: all items of a batch are then handled by one worker
+					oldProcs := 0
+					if epoch%2 == 1 {
+						oldProcs = runtime.GOMAXPROCS(1)
+					}
 					for i, op := range ops {
 						rec, err := run.execStep(inst, li, i, op)
 						if err != nil {
@@ -85,6 +91,9 @@ func cmdDomains(args []string) int {
 						if len(samples) < 6 {
 							samples = append(samples, describeStep(rec))
 						}
+					}
+					if oldProcs != 0 {
+						runtime.GOMAXPROCS(oldProcs)
 					}
 				}
 			}
